@@ -141,7 +141,7 @@ pub const PROPS: &[PropSpec] = &[
         id: "C13",
         engine: "e4",
         mix: &[],
-        classes: &["http/", "read/", "get/", "head/", "import/", "append/id-not-increasing", "cas/empty-post-status", "cas/hash", "follow/threshold-missing"],
+        classes: &["http/", "read/", "get/", "head/", "import/", "append/id-not-increasing", "cas/empty-post-status", "cas/hash", "follow/threshold-missing", "ctx/leak:http"],
         nontrivial: &[&["http:append-ok"], &["http:400", "http:404", "http:store-rejected", "http:unknown-route", "http:client-disconnect"], &["http:cat-ndjson", "http:cat-sse", "http:head"]],
         must_reach: &["http:append-ok", "http:400", "http:404", "http:store-rejected", "http:unknown-route", "http:client-disconnect", "http:fragmented", "http:backpressure", "http:chunked-body", "http:body>8KiB", "http:bodyless-append", "http:cat-ndjson", "http:cat-sse", "http:head", "http:keep-alive", "http:pipelined", "cas:post", "cas:get", "cas:empty-post", "import:ok", "import:rejected", "follow:tail", "follow:history", "follow:head", "follow:live-frames", "remove:live"],
         quick_runs: 1200,
